@@ -243,10 +243,12 @@ def _has_noncontainer_split_json_mime(t):
 
 
 def shrink_triple(sb, t, cfg, mode, sig, budget=40):
-    """greedy: drop cells, outputs, metadata while the same exception@frame is still raised under the same configuration"""
+    """greedy: drop cells, outputs, metadata while the failure keeps the same (refined) signature under the same configuration"""
     def fails(c):
         r = run(sb, [{'op': 'merge_all', 'b': c['b'], 'l': c['l'], 'r': c['r'], 'cfgs': [cfg]}], mode, shards=1)[0]
-        return 'res' in r and 'err' in r['res'][0] and error_signature(r['res'][0]) == sig
+        if not ('res' in r and 'err' in r['res'][0]): return False
+        one = r['res'][0]
+        return refine_signature(error_signature(one), c, {'msg': one.get('msg')}) == sig
     def cands(c):
         n = [len(c[k]['cells']) for k in 'blr']
         for i in reversed(range(max(n))):
